@@ -406,8 +406,21 @@ def _cleanup(paths):
             pass
 
 
+_OWN_SCRATCH = []
+
+
 def _scratch(*names):
-    d = os.environ["VERIF_SCRATCH"]
+    d = os.environ.get("VERIF_SCRATCH")
+    if not d:
+        # run_check.py --replay does not provide a scratch directory: make a private one and remove it at exit
+        if not _OWN_SCRATCH:
+            import atexit
+            import shutil
+            import tempfile
+            base = "/dev/shm" if os.path.isdir("/dev/shm") and os.access("/dev/shm", os.W_OK) else None
+            _OWN_SCRATCH.append(tempfile.mkdtemp(prefix="aegean_verif_c14_", dir=base))
+            atexit.register(shutil.rmtree, _OWN_SCRATCH[0], ignore_errors=True)
+        d = _OWN_SCRATCH[0]
     return [os.path.join(d, n) for n in names]
 
 
